@@ -302,7 +302,7 @@ def _bit_ranges(P, R, cls, rid):
           "module; B2' every token constant the writer emits is one the reader's modules reference (layout tokens excepted); B4' VERILOG.* "
           "metadata keys stored by the reader minus keys read by the writer equals the reviewed table; B5' separators in item lists are "
           "updated on every iteration; hand-maintained position counters advance once per element; B6' the bounds of every bit range written next to a cable "
-          "name come from the one wire-to-bit-index function (position + lower_index) applied to wires of that same cable expression.")
+          "name come from the one wire-to-bit-index function (position + lower_index) applied to wires of that same cable expression; B7' the readers of named and of positional port maps place a connection narrower than its port on the same end of the port (abstract alignment: wire k meets pin k, or pin k + max(len(pins) - len(wires), 0)).")
 def check_c04(ctx, R):
     P = ctx.P
     R.rule("B1'", "delimiter balance of the Verilog writer")
@@ -413,7 +413,7 @@ def _str_consts(node):
           "category the reader assigns has a branch in the writer's compose_instances (otherwise instances vanish on write); B4'' EBLIF.* keys "
           "stored by the reader minus keys read by the writer equals the reviewed table; B1'' every .model written is followed by .end on all "
           "paths; B6 the .conn wire merge iterates over a snapshot of the pin lists it empties; hand-maintained position counters advance once "
-          "per element; B7 a bus grown on demand to hold bit I is then read at bit I.")
+          "per element; B7 a bus grown on demand to hold bit I is then read at bit I; B8 the (name, index) pair a bit of a bus is stored under comes from one parse of one token.")
 def check_c18(ctx, R):
     P = ctx.P
     R.rule("B2''", "directive agreement")
